@@ -1732,6 +1732,37 @@ class StateEngine(object):
 
         # ----------------------------------------------------------------------
 
+        def handle_exception(e):
+            """
+            If state_engine.notify bombs out with an exception it is likely
+            to be due to invalid data or the ASL not being handled correctly.
+            It's hard to know the best course of action, but for now catch the
+            Exception, log error, Fail the Execution then acknowledge the
+            "poison" message to prevent it from being endlessly redelivered.
+            """
+            message = ("Event {} caused the exception: {}:{} - "
+                       "dropping the message! {}").format(
+                        event, type(e).__name__, str(e), traceback.format_exc()
+                    )
+            self.logger.error(message)
+            handle_error(state, "States.Runtime", message)
+            self.event_dispatcher.acknowledge(id)
+
+        def guarded(handler):
+            """
+            The Task, Map and Parallel states do their work in delegates that
+            run from a timeout (immediately, or when a retry interval has
+            passed), that is to say outside the try block in notify() that
+            calls the state handlers. Wrap them so that an exception raised
+            there fails the execution in the same way.
+            """
+            def run():
+                try:
+                    handler()
+                except Exception as e:
+                    handle_exception(e)
+            return run
+
         def handle_terminal_state(state_type, event, id=None, terminal_state=None):
             """
             This function handles the boilerplate needed for terminal states.
@@ -2170,7 +2201,9 @@ class StateEngine(object):
             asl_state_Task_delegate when any retry timeout has expired.
             """
             retry_timeout = context["State"].get("RetryTimeout", 0)
-            self.event_dispatcher.set_timeout(asl_state_Task_delegate, retry_timeout)
+            self.event_dispatcher.set_timeout(
+                guarded(asl_state_Task_delegate), retry_timeout
+            )
 
         def asl_state_Choice():
             """
@@ -2808,7 +2841,9 @@ class StateEngine(object):
             asl_state_Parallel_delegate when any retry timeout has expired.
             """
             retry_timeout = context["State"].get("RetryTimeout", 0)
-            self.event_dispatcher.set_timeout(asl_state_Parallel_delegate, retry_timeout)
+            self.event_dispatcher.set_timeout(
+                guarded(asl_state_Parallel_delegate), retry_timeout
+            )
 
         def get_start_index(context, reentry_only=False):
             """
@@ -3147,7 +3182,9 @@ class StateEngine(object):
             else:
                 retry_timeout = 0
             
-            self.event_dispatcher.set_timeout(asl_state_Map_delegate, retry_timeout)
+            self.event_dispatcher.set_timeout(
+                guarded(asl_state_Map_delegate), retry_timeout
+            )
 
         def asl_state_collect_results(state_type):
             """
@@ -3632,18 +3669,5 @@ class StateEngine(object):
                                         )
             )()
         except Exception as e:
-            """
-            If state_engine.notify bombs out with an exception here it is likely
-            to be due to invalid data or the ASL not being handled correctly.
-            It's hard to know the best course of action, but for now catch the
-            Exception, log error, Fail the Execution then acknowledge the
-            "poison" message to prevent it from being endlessly redelivered.
-            """
-            message = ("Event {} caused the exception: {}:{} - "
-                       "dropping the message! {}").format(
-                        event, type(e).__name__, str(e), traceback.format_exc()
-                    )
-            self.logger.error(message)
-            handle_error(state, "States.Runtime", message)
-            self.event_dispatcher.acknowledge(id)
+            handle_exception(e)
 
